@@ -235,7 +235,7 @@ class Piece:
     def render(self):
         out = []
         cur = self.start
-        for (s, e, text, order, tag) in sorted(self.edits, key=lambda x: (x[0], x[3])):
+        for (s, e, text, order, tag) in sorted(self.edits, key=lambda x: (x[0], 0 if x[1] == x[0] else 1, x[3])):
             if s < cur:
                 raise LostAnchor('overlapping edits at line %d (%s)' % (self.src.line_of(s), tag))
             out.append(self.src.text[cur:s])
@@ -837,6 +837,10 @@ def _extract_stmts(src, name, rules, sections, opts, entry, report):
             piece.insert(toks[lp['close']].start, '\n' + v + '\n', 'ghost:loop%d-body-end' % n)
         elif where == 'before':
             piece.insert(toks[lp['kw']].start, '\n' + v + '\n', 'ghost:loop%d-before' % n)
+        elif where == 'after':
+            piece.insert(toks[lp['close']].end, '\n' + v + '\n', 'ghost:loop%d-after' % n)
+        else:
+            raise ValueError('bad loop anchor ' + where)
     for (w, spec, v) in anchors:
         rx, k = _regex_anchor(spec)
         m = _find_match(src, s, e, rx, k, w)
